@@ -50,7 +50,7 @@ def pre_sync(V, mode="a", name="h"):
 @P.unit(f"{UKV}.put")
 def _put(V):
     I, st = V.I, V.st
-    mode = V.choose(["a", "r"], "mode")
+    mode = V.choose(["a", "r", "w", "x"], "mode")
     closed = V.choose([False, True], "closed")
     cell, h, F, ch, bof = pre_sync(V, mode)
     if closed:
@@ -70,7 +70,7 @@ def _put(V):
     oversize = z3.Or(kl >= 256, vl >= 2 ** 32)
     if out.returned:
         # success only when legal
-        V.ensure("post/success-only-when-legal", z3.And(z3.Not(dup), z3.Not(oversize), z3.BoolVal(mode == "a" and not closed)))
+        V.ensure("post/success-only-when-legal", z3.And(z3.Not(dup), z3.Not(oversize), z3.BoolVal(mode in ("a", "w", "x") and not closed)))
         ch2 = ch.extended(key.z, value.z)
         V.ensure("post/file-is-append", F2 == bwrite(bwrite(bwrite(F, ch.P[ch.n], pack_BI(kl, vl)), ch.P[ch.n] + 5, key.z),
                                                      ch.P[ch.n] + 5 + kl, value.z))
@@ -99,7 +99,7 @@ def _put(V):
         if out.raised(I, "struct.error"):
             V.ensure("post-exc/struct.error-iff-oversize", oversize)
         if out.raised(I, "UnsupportedOperation"):
-            V.ensure("post-exc/UnsupportedOperation-iff-not-writable", z3.BoolVal(mode != "a" or closed))
+            V.ensure("post-exc/UnsupportedOperation-iff-not-writable", z3.BoolVal(mode == "r" or closed))
         V.ensure("post-exc/file-unchanged", F2 == F)
         V.ensure("post-exc/view-unchanged", U.same_view(I, before, after))
 
@@ -257,6 +257,37 @@ def _reopen(V):
         return
     F2 = bz(cell.fields["content"])
     V.ensure("reopen/headers-read-back", z3.And(bz(h.fields["h2"]) == H2, bz(h.fields["b0"]) == B0, bz(h.fields["h1"]) == FM.pad16(H1)))
+    V.ensure("reopen/file-unchanged", F2 == F)
+    post_indexed(V, h, F2, ch, bof, label="reopen")
+
+
+@P.unit(f"{UKV}.close", name="close, then open() again on the SAME handle (created with r / a / w / x): nothing of the file is lost, every record is still indexed",
+        functions=[f"{UKV}.close", f"{UKV}.open", f"{UKV}.read_header", f"{UKV}._unpack_read", f"{UKV}._bof", f"{UKV}.map_blocks"])
+def _close_reopen(V):
+    I, st = V.I, V.st
+    mode = V.choose(["r", "a", "w", "x"], "mode")
+    cell, h, F, ch, bof = pre_sync(V, mode)
+    U.install_map_blocks_spec(I)
+    # the file on disk starts with this handle's header (it wrote or read it)
+    H1, H2, B0 = bz(h.fields["h1"]), bz(h.fields["h2"]), bz(h.fields["b0"])
+    V.assume(blen(F) >= bof)
+    V.assume(bslice(F, 0, 32) == FM.pack_FH(H1, blen(H2), blen(B0)))
+    V.assume(bslice(F, 32, blen(H2)) == H2)
+    V.assume(bslice(F, 32 + blen(H2), blen(B0)) == B0)
+    st.ghost["mb"] = {"ch": ch, "F": F, "bof": bof, "m": ch.n, "mode": "chain"}
+    V.witness(lambda ev: {"op": "close-reopen", "mode": mode, "n": ev(ch.n), "h2len": ev(blen(H2)), "b0len": ev(blen(B0)), "signature": "close-reopen"})
+    V.cover()
+    out = V.method(h, "close", [], qual=f"{UKV}.close")
+    V.ensure("close/no-exception", z3.BoolVal(out.returned))
+    if not out.returned:
+        return
+    V.ensure("close/file-unchanged", bz(cell.fields["content"]) == F)
+    V.ensure("close/a-handle-that-created-the-file-reopens-for-append", z3.BoolVal(h.fields["mode"] == ("a" if mode in ("w", "x") else mode)))
+    out = V.method(h, "open", [], qual=f"{UKV}.open")
+    V.ensure("reopen/no-exception", z3.BoolVal(out.returned))
+    if not out.returned:
+        return
+    F2 = bz(cell.fields["content"])
     V.ensure("reopen/file-unchanged", F2 == F)
     post_indexed(V, h, F2, ch, bof, label="reopen")
 
